@@ -300,6 +300,22 @@ func vC14ErrClass(err error) string {
 func (h *vC14H) observeBlobs() ([][]int, []string) {
 	res := [][]int{}
 	keys := []string{}
+	seen := map[string]bool{}
+	// the keys this behaviour can legitimately create are probed one by one (Rosmar's range scan does not list a key that was
+	// deleted and added again); the scan adds whatever else carries an attachment prefix
+	for d := 1; d <= vC14NDocs; d++ {
+		for c := 1; c <= vC14NContents; c++ {
+			k := MakeAttachmentKey(AttVersion2, h.docid[d], h.digests[c])
+			data, err := h.col.GetAttachment(h.ctx, k)
+			if err == nil {
+				seen[k] = true
+				res = append(res, []int{d, c, h.contentOfBytes(data)})
+				keys = append(keys, k)
+			} else if !base.IsDocNotFoundError(err) {
+				h.fatal("probe "+k, err)
+			}
+		}
+	}
 	rs, ok := h.col.dataStore.(sgbucket.RangeScanStore)
 	if !ok {
 		h.fatal("scan", fmt.Errorf("datastore %T has no range scan", h.col.dataStore))
@@ -313,6 +329,9 @@ func (h *vC14H) observeBlobs() ([][]int, []string) {
 			item := it.Next(h.ctx)
 			if item == nil {
 				break
+			}
+			if seen[item.ID] {
+				continue
 			}
 			d, c := 0, 0
 			for dd := 1; dd <= vC14NDocs; dd++ {
@@ -354,10 +373,9 @@ func (h *vC14H) ancestry(p int) []string {
 	return out
 }
 
-func (h *vC14H) attachmentsFor(st vC14Step, gen int) (map[string]any, map[string]vC14Want) {
+func (h *vC14H) attachmentsFor(st vC14Step, p int, gen int) (map[string]any, map[string]vC14Want) {
 	atts := map[string]any{}
 	want := map[string]vC14Want{}
-	p := vInt(st.P)
 	for _, n := range vC14Names {
 		v, ok := st.S[n]
 		if !ok {
@@ -383,9 +401,17 @@ func (h *vC14H) attachmentsFor(st vC14Step, gen int) (map[string]any, map[string
 func (h *vC14H) doWrite(i int, st vC14Step) (bool, string) {
 	d, r, p := vInt(st.D), vInt(st.R), vInt(st.P)
 	docid := h.docid[d]
+	if p != 0 && h.real[p] == "" {
+		return false, "noparent" // the parent named by the behaviour was refused by the real gateway: nothing to write on
+	}
+	if p == 0 && st.K == "put" { // no _rev: the gateway puts the revision on top of the current (tombstoned) one
+		if doc, err := h.col.GetDocument(h.ctx, docid, DocUnmarshalSync); err == nil && doc != nil {
+			p = h.modelRev(d, doc.GetRevTreeID())
+		}
+	}
 	gen := h.gen[p] + 1
 	body := Body{"k": fmt.Sprintf("b%d-s%d-%s", h.beh, i, st.K)}
-	atts, want := h.attachmentsFor(st, gen)
+	atts, want := h.attachmentsFor(st, vInt(st.P), gen)
 	if len(atts) > 0 {
 		body[BodyAttachments] = atts
 	}
@@ -430,7 +456,11 @@ func (h *vC14H) emit(i int, st vC14Step, ok bool, e string) {
 			s[n] = vInt(v)
 		}
 	}
-	h.tw.Emit(vObj{"a": st.A, "i": i, "k": st.K, "d": vInt(st.D), "r": vInt(st.R), "p": vInt(st.P), "s": s, "ok": ok, "e": e, "S": h.snapshot()})
+	hi := 0
+	if st.H != nil {
+		hi = vInt(st.H)
+	}
+	h.tw.Emit(vObj{"a": st.A, "i": i, "k": st.K, "d": vInt(st.D), "r": vInt(st.R), "p": vInt(st.P), "s": s, "h": hi, "ok": ok, "e": e, "S": h.snapshot()})
 }
 
 func (h *vC14H) touch(d int) {
